@@ -12,7 +12,7 @@ use serde_json::{json, Value};
 pub static ENGINE: Engine = Engine {
     prop: "C08",
     level: "exploration",
-    rule: "every string <= L chars over an 18-char lexical alphabet (incl. backslash, quote, digits 0 and 1, a non-ASCII letter) (lexer vs reference scanner); every token sequence <= N over the full token alphabet incl. every alias spelling (parser vs reference LL(1) parser: Err vs Ok(tree), trees compared structurally by variable name); every grammar sentence with <= K AST nodes and every sentence of the depth-2 family (every node kind in every child position, 2 300 trees) in three print styles plus EVERY one-token deletion/insertion/replacement of it. distinct = distinct syntax trees accepted by both sides + distinct token lists produced by the lexer sweep",
+    rule: "every string <= L chars over an 18-char lexical alphabet (incl. backslash, quote, digits 0 and 1, a non-ASCII letter) (lexer vs reference scanner); every token sequence <= N over the full token alphabet incl. every alias spelling (parser vs reference LL(1) parser: Err vs Ok(tree), trees compared structurally by variable name); every grammar sentence with <= K AST nodes and every sentence of the depth-2 family (every node kind in every child position, 2 300 trees) in three print styles plus EVERY one-token deletion/insertion/replacement of it. long inputs with every kind of token straddling every power-of-two offset 64..65536. distinct = distinct syntax trees accepted by both sides + distinct token lists produced by the lexer sweep",
     assumptions: &[
         "the reference lexer/parser (harness/src/refl.rs, written from README and the property text) is the grammar",
         "numbers beyond usize::MAX may be rejected (never accepted with another value)",
@@ -371,8 +371,48 @@ fn grammar_sweep(ctx: &mut Ctx) {
     }
 }
 
+/// long inputs: every kind of token placed across every power-of-two byte offset from 64 to
+/// 65536 (typical block / buffer sizes), with spaces, newlines or a long comment in front
+fn boundary_sweep(ctx: &mut Ctx) {
+    // (text, index of a byte in the middle of the sensitive token)
+    let samples: [(&str, usize); 8] = [
+        ("alarm_raised | notify_operator", 20),
+        ("a implies b", 5),
+        ("a <=> b", 3),
+        ("[a, b] >= 12345 & c", 12),
+        ("a & \"a comment with an | in it\" b", 12),
+        ("{reference} | a", 5),
+        ("x' & nand1 nand y", 11),
+        ("exists va\u{e9}r # va\u{e9}r & b", 10),
+    ];
+    let mut idx = 0u64;
+    for k in 6..=16u32 {
+        let b = 1usize << k;
+        for (text, mid) in samples {
+            for delta in 0..3usize {
+                for pad in 0..3usize {
+                    idx += 1;
+                    if !ctx.mine(idx) {
+                        continue;
+                    }
+                    let n = b - mid - delta + 1;
+                    let prefix = match pad {
+                        0 => " ".repeat(n),
+                        1 => "\n".repeat(n),
+                        _ => format!("\"{}\"", "c".repeat(n.saturating_sub(2))),
+                    };
+                    let t = format!("{prefix}{text}");
+                    check_parse(ctx, &t);
+                    ctx.count("boundary_inputs", 1);
+                }
+            }
+        }
+    }
+}
+
 fn run(ctx: &mut Ctx) {
     lexer_sweep(ctx);
+    boundary_sweep(ctx);
     let lex_all = all_lexemes();
     let lex_kinds: Vec<String> = kinds().iter().map(|t| refl::render_canon(std::slice::from_ref(t))).collect();
     let lex_red: Vec<String> = reduced_kinds().iter().map(|t| refl::render_canon(std::slice::from_ref(t))).collect();
